@@ -171,7 +171,8 @@ class C15UDSScanner(_ScannerPhases, UDSScanner):
 
     async def main(self) -> None:
         enter(self, "main")
-        await self.ecu.ping()
+        for _ in range(int(_spec(self).get("pings", 1))):
+            await self.ecu.ping()
         await inject(self, "Main")
 
 
